@@ -35,6 +35,12 @@ theorem entry_points :
     Fail_events = [iff "", kw "then", kw "return", kw "endif", call "fail"] ∧
     FailStatus_events = [call "fail", call "WithStatus"] := by decide
 
+/-- `MustBind` is `Bind` followed by `Fail(err)` on an error (model `mustBind`) -/
+theorem mustbind_is_fail :
+    MustBind_events = [iff "Bind", call "Bind", kw "then", call "Fail", kw "return", kw "endif", kw "return"] ∧
+    Rivaas.ErrFmt.mustBind none = none ∧ ∀ e, Rivaas.ErrFmt.mustBind (some e) = some (.fail e) := by
+  refine ⟨by decide, rfl, fun _ => rfl⟩
+
 /-- the decision chain of `selectFormatter`, in the order of the model's `selectFormatter`: no configuration, the
     single formatter, the negotiated table (an `Accepts` answer looked up in the table), the default format
     (looked up in the table), the fallback -/
